@@ -118,6 +118,8 @@ func runC12(t *testing.T, e *worlds.Env, tier string) (bool, any) {
 	var upRaw *worlds.UpConnRec
 	var modelB *worlds.ConnModel
 	aborted := false
+	var silentFor time.Duration
+	var ipPost *layer4.MatchRemoteIP
 	splitAt := 0
 	var hdr2 *PPHeader
 	var plan2 *worlds.ClientPlan
@@ -167,7 +169,19 @@ func runC12(t *testing.T, e *worlds.Env, tier string) (bool, any) {
 				allowed = false
 			}
 			sample.Allow, sample.Allowed = allow, allowed
-			switch tp.Weighted("pre-match", 3, 2, 2) {
+			switch tp.Weighted("pre-match", 3, 2, 2, 2) {
+			case 3:
+				// the load-balancer layout: the route with the handler is entered by the peer's real
+				// address (shipped remote_ip matcher), the next route by the address the header declares
+				if mode == 0 && allowed && !hdr.Unknown && !hdr.Local && len(hdr.TLVs) == 0 { // (the library rejects v2 headers with TLVs)
+					pre := &layer4.MatchRemoteIP{Ranges: []string{worlds.ClientAddr(1).IP.String()}}
+					post := &layer4.MatchRemoteIP{Ranges: []string{hdr.Src.IP.String()}}
+					if pre.Provision(e.Ctx) == nil && post.Provision(e.Ctx) == nil {
+						sets = []layer4.MatcherSet{{pre}}
+						ipPost = post
+						sample.Matcher = "remote_ip before and after"
+					}
+				}
 			case 0:
 				sets = []layer4.MatcherSet{{&l4proxyprotocol.MatchProxyProtocol{}}}
 				sample.Matcher = "proxy_protocol"
@@ -310,7 +324,12 @@ func runC12(t *testing.T, e *worlds.Env, tier string) (bool, any) {
 			hs = append(hs, b.Handler(&mk, sig), h)
 		}
 		routes := layer4.RouteList{layer4.VerifNewRoute(sets, hs)}
-		if mode == 0 && splitAt > 0 && len(sets) == 0 && tp.Prob(1, 2, "two-routes") {
+		if mode == 0 && splitAt > 0 && ipPost != nil {
+			ip1 := HSpec{Kind: "vmark", Name: "IP1"}
+			second := append([]layer4.NextHandler{b.Handler(&ip1, sig)}, hs[splitAt:]...)
+			routes = layer4.RouteList{layer4.VerifNewRoute(sets, hs[:splitAt:splitAt]), layer4.VerifNewRoute([]layer4.MatcherSet{{ipPost}}, second)}
+			sample.Layout = "remote_ip(peer) -> proxy_protocol ; remote_ip(declared source) -> rest"
+		} else if mode == 0 && splitAt > 0 && len(sets) == 0 && tp.Prob(1, 2, "two-routes") {
 			// the proxy_protocol handler ends its route; what follows is a route of its own
 			// (only with an unconditional first route: behind a matcher that still waits for
 			// data the unconditional second route legitimately runs first)
@@ -318,8 +337,15 @@ func runC12(t *testing.T, e *worlds.Env, tier string) (bool, any) {
 			sample.Layout = "handler ends its route"
 		}
 		plan.Chunks = e.MakeChunks(len(plan.App), 10*time.Millisecond)
+		if mode == 1 && consumeK == 0 && len(plan.Chunks) > 0 && tp.Prob(1, 4, "silent-start") {
+			// a client of a server-speaks-first protocol: silent for a while. The upstream must get
+			// the header when the connection is made, not when the client first writes
+			silentFor = 400 * time.Millisecond
+			plan.Chunks[0].Delay = silentFor
+			sample.ClientEnd = "silent for 400ms, then "
+		}
 		plan.End = worlds.EndHalfClose
-		sample.ClientEnd = "half-close"
+		sample.ClientEnd += "half-close"
 		if mode != 1 && tp.Prob(1, 8, "abort-mid-header") {
 			plan.End = worlds.EndAbort
 			plan.AbortAt = tp.Choose(len(hdrBytes)+1, "abort-at")
@@ -376,6 +402,18 @@ func runC12(t *testing.T, e *worlds.Env, tier string) (bool, any) {
 			}
 			if !entered {
 				fail("header-not-recognised", "the client sent a complete well-formed %s (client chunks %v) and the rest of its stream, but the route behind the proxy_protocol matcher never ran", sample.Header, chunkSizes(cl.Plan.Chunks, 6))
+				return
+			}
+		}
+		if ipPost != nil && !aborted && model.WroteAll && cl.WriteErr == nil {
+			entered := false
+			for _, hc := range model.HandlerCalls {
+				if hc.Handler == "IP1" {
+					entered = true
+				}
+			}
+			if !entered {
+				fail("addresses", "after the header (declaring source %v) the route guarded by remote_ip %v never ran: the shipped ip matcher did not see the declared address", hdr.Src, hdr.Src.IP)
 				return
 			}
 		}
@@ -445,6 +483,10 @@ func runC12(t *testing.T, e *worlds.Env, tier string) (bool, any) {
 					return
 				}
 				sample.UpHeader = fmt.Sprintf("v%d addr=%v src=%v dst=%v len=%d", ver, has, src, dst, n)
+				if silentFor > 0 && upRaw.FirstDataAt >= silentFor {
+					fail("sent-header", "upstream %s (connected at %v) received the first byte of the header only at %v: it was held back until the client, silent for %v, wrote", upRaw.Addr, upRaw.AcceptAt, upRaw.FirstDataAt, silentFor)
+					return
+				}
 				if ver != sendVer {
 					fail("sent-header", "proxy configured for v%d sent a v%d header", sendVer, ver)
 					return
